@@ -155,13 +155,25 @@ def gen_fields_simple(rng, lm):
     return lm
 
 
+def well_separated(lm, margin=1e-5) -> bool:
+    """every coordinate column: distinct values are further apart than margin*max|coordinate| (far outside the mesh
+    tolerance 1e-8*max|coordinate|): the hypothesis under which fuzzy sorting is canonical (C02's `Sep`).  Meshes whose
+    spacing is below their own tolerance are outside the data sets C19 quantifies over ("as in C02/C11")."""
+    maxc = max([abs(c) for p in lm["points"] for c in p] + [0.0])
+    for k in range(lm["dim"]):
+        col = sorted({p[k] for p in lm["points"]})
+        if any(b - a <= margin * maxc for a, b in zip(col, col[1:])):
+            return False
+    return True
+
+
 def gen_base_mesh(rng, max_points=36, **kw):
     """meshgen mesh with the topological dimension drawn first (lines would dominate otherwise)"""
     want_topo = rng.choice([1, 2, 2, 2, 3, 3])
     best = None
     for _ in range(60):
         lm, mt = meshgen.gen_mesh(rng, max_cells_per_dir=rng.choice([1, 2, 2, 3]), fields=False, **kw)
-        if len(lm["points"]) > max_points:
+        if len(lm["points"]) > max_points or not well_separated(lm):
             continue
         best = (lm, mt)
         if mt["topo"] == want_topo:
@@ -196,7 +208,7 @@ def gen_history_case(rng):
     # P: a pixel / voxel mesh (meshio conversion reorders its corners)
     for _ in range(60):
         p, pt = meshgen.gen_mesh(rng, max_cells_per_dir=2, allow_duplicates=False, fields=False, dims=(2, 3))
-        if pt["style"] in ("pixel", "voxel"):
+        if pt["style"] in ("pixel", "voxel") and well_separated(p):
             break
     gen_fields_simple(rng, p)
     inputs.append({"lm": p, "role": "P-" + pt["style"]})
@@ -797,7 +809,7 @@ def cli_subprocess(args, cwd):
 def gen_process_case(rng):
     for _ in range(40):
         a, mt = meshgen.gen_mesh(rng, max_cells_per_dir=2, allow_duplicates=False, fields=False)
-        if mt["style"] != "poly" and len(a["points"]) <= 30:
+        if mt["style"] != "poly" and len(a["points"]) <= 30 and well_separated(a):
             break
     gen_fields_simple(rng, a)
     b = meshgen.relabel(rng, a)
